@@ -83,3 +83,5 @@ Definition v_context (err : string) (v : val) : val :=
   | VC c [] => if (c =? "None")%string then VC "Err" [VC err []] else VStuck
   | _ => VStuck
   end.
+Definition v_max (a b : val) : val :=
+  match a, b with VN x, VN y => VN (N.max x y) | _, _ => VStuck end.
